@@ -84,7 +84,7 @@ def prepare_overlay():
                 info["generator"][name] = {"ok": False, "output": "generator does not build"}
                 continue
             yf = [os.path.join(rev2, f[len("@rev2/"):]) if f.startswith("@rev2/") else os.path.join(Y, f) for f in yfiles]
-            cmd = [genbin, "-path=" + Y, "-output_file=" + os.path.join(d, "gen.go"), "-package_name=" + name] + COMMON + flags + yf
+            cmd = [genbin, "-logtostderr", "-path=" + Y, "-output_file=" + os.path.join(d, "gen.go"), "-package_name=" + name] + COMMON + flags + yf
             q = subprocess.run(cmd, cwd=d, stdout=subprocess.PIPE, stderr=subprocess.STDOUT, text=True)
             ok = q.returncode == 0 and os.path.exists(os.path.join(d, "gen.go"))
             info["generator"][name] = {"ok": ok, "output": q.stdout[-1500:], "flags": flags, "yang": yfiles}
